@@ -111,3 +111,36 @@ Theorem agent_remove_readd_forgets_refuted :
   (* ... although t1 was never deleted: 2000m + 2000m are placed on 3000m *)
   amt (t_req ag_t2) DCpu + csum (used_amt DCpu) (n_tasks (bx_node bx_cache)) = 64000 /\ amt bx_alloc DCpu = 48000.
 Proof. vm_compute. repeat split; reflexivity. Qed.
+
+(* ---- bind execution over a batch: a failure of ONE Binding must not be applied batch-wide
+   (seeded mutant C02-r8-2: `bindOK := len(errMsg) == 0` for every context of the batch) ---- *)
+Definition fb_specs : list task_spec :=
+  [mkTaskSpec 1 1 1 0 1000 256 0 Pending None true; mkTaskSpec 2 1 1 0 1500 256 0 Pending None true;
+   mkTaskSpec 3 1 1 0 2000 256 0 Pending None true].
+Definition fb_cache : cache := let s := build 2 bx_nodes bx_jobs fb_specs in mkCache (heap s) (jobs s) (nodes s).
+Definition fb_tasks (i : positive) : option task := c_heap fb_cache !! i.
+Definition fb_t (i : positive) : task := default (mkTask i 1 1 1 0 empty_res empty_res false false Pending None) (fb_tasks i).
+(* t1 (1000m) and t2 (1500m) admitted to n1 (3000m): the batch *)
+Definition fb_admitted : gmap positive node :=
+  fold_left (agent_step 2 fb_tasks) [AOpBind (fb_t 1) 1; AOpBind (fb_t 2) 1]%positive (c_nodes fb_cache).
+Definition fb_pending : list (positive * positive) := [(1, 1); (2, 1)]%positive.
+(* the batch-wide reading: any reported failure sends EVERY handed context through the failure path *)
+Definition flow_batch_wide (eps : Z) (tasks : positive -> option task) (pf bf : list positive)
+    (ns : gmap positive node) (pending : list (positive * positive)) : gmap positive node :=
+  let handed := flow_pass pf pending in
+  let all := match bf with [] => [] | _ => map fst handed end in
+  fold_left (flow_unbind eps tasks all) handed (fold_left (flow_unbind eps tasks pf) pending ns).
+Definition cpu_held (ns : gmap positive node) : Z :=
+  match ns !! 1%positive with Some n => csum (used_amt DCpu) (n_tasks n) | None => 0 end.
+
+Theorem batch_wide_failure_refuted :
+  (* the Binding of t1 fails, t2 IS bound by the API server *)
+  snd (flow_batch 2 fb_tasks [] [1%positive] fb_admitted fb_pending) = [(2, 1)]%positive /\
+  (* per task: t2 stays charged and t3 (2000m) is refused *)
+  (let ns := fst (flow_batch 2 fb_tasks [] [1%positive] fb_admitted fb_pending) in
+   cpu_held ns = 1500 * 16 /\ snd (agent_add_bind_task 2 ns (fb_t 3) 1%positive) = BRefused ErrInsufficient) /\
+  (* batch-wide: the bound t2 leaves the ledger, t3 is admitted: 1500m + 2000m placed on 3000m *)
+  (let ns := flow_batch_wide 2 fb_tasks [] [1%positive] fb_admitted fb_pending in
+   cpu_held ns = 0 /\ snd (agent_add_bind_task 2 ns (fb_t 3) 1%positive) = BOk /\
+   cpu_held (fst (agent_add_bind_task 2 ns (fb_t 3) 1%positive)) = 2000 * 16).
+Proof. vm_compute. repeat split; reflexivity. Qed.
